@@ -38,7 +38,14 @@ def jobs(tier):
             js.append(dict(name="STATUS:%s:n%d" % (ver, n), fam="STATUS", n=n, ver=ver, prog="plain"))
         for n in range(0, nmax + 1):
             js.append(dict(name="STATUS3:%s:n%d" % (ver, n), fam="STATUS3", n=n, ver=ver, prog="plain"))
-    for prog in ("plain", "recall_before", "recall_after", "mutate"):
+    for n in range(0, 3):
+        js.append(dict(name="CL:n%d" % n, fam="CL", n=n, ver="1.1", prog="plain"))
+    for n in range(0, nmax):
+        js.append(dict(name="NAME:filewrap:n%d" % n, fam="NAME", n=n, ver="1.1", prog="filewrap"))
+    for fam in ("STATUS", "NAME", "VALUE"):
+        for n in range(1, nmax + 1):
+            js.append(dict(name="%s:swallow:n%d" % (fam, n), fam=fam, n=n, ver="1.1", prog="swallow"))
+    for prog in ("plain", "recall_before", "recall_after", "mutate", "mutate_item"):
         for n in range(0, nmax + 1):
             js.append(dict(name="NAME:%s:n%d" % (prog, n), fam="NAME", n=n, ver="1.1", prog=prog))
             js.append(dict(name="VALUE:%s:n%d" % (prog, n), fam="VALUE", n=n, ver="1.1", prog=prog))
@@ -85,6 +92,10 @@ def make_inputs(job):
         s = SymStr.fresh(job["n"], "hv")
         _alpha(eng, s)
         headers = [("X-B", s.simplify() if job["n"] else "")]
+    elif fam == "CL":
+        s = SymStr.fresh(job["n"], "cl")
+        _alpha(eng, s)
+        headers = [("Content-Length", "2" + s if job["n"] else "2")]
     elif fam == "TWO":
         a = SymStr.fresh(job["a"], "ha")
         b = SymStr.fresh(job["b"], "hb")
@@ -105,12 +116,13 @@ def make_inputs(job):
             headers = [("X-D", bad)]
         else:
             status = bad
-    return dict(status=status, headers=headers, ver=job["ver"], prog=job["prog"])
+    return dict(status=status, headers=headers, ver=job["ver"], prog=job["prog"], fam=fam)
 
 
 class App:
-    def __init__(self, inp):
+    def __init__(self, inp, ns=None):
         self.inp = inp
+        self.ns = ns
 
     def __call__(self, environ, start_response):
         inp = self.inp
@@ -118,11 +130,30 @@ class App:
         if prog == "plain":
             start_response(inp["status"], list(inp["headers"]))
             return [b"xy"]
+        if prog == "swallow":
+            # the application catches whatever start_response raises and carries on
+            try:
+                start_response(inp["status"], list(inp["headers"]))
+            except Exception:  # noqa
+                pass
+            return [b"xy"]
+        if prog == "filewrap":
+            import io
+            from harness import C03
+            start_response(inp["status"], [("Content-Length", "9")] + list(inp["headers"]))
+            return environ["wsgi.file_wrapper"](C03._make_file(self.ns, b"12345"), 2)
         if prog == "mutate":
             hdrs = list(inp["headers"])
             start_response(inp["status"], hdrs)
             hdrs.append(("X-Late", "evil\r\nInjected: 1"))
             hdrs[0] = ("X-Changed", "1")
+            return [b"xy"]
+        if prog == "mutate_item":
+            # header items given as (mutable) lists and changed after the call
+            hdrs = [list(kv) for kv in inp["headers"]]
+            start_response(inp["status"], hdrs)
+            for kv in hdrs:
+                kv[1] = "evil\r\nInjected: 1"
             return [b"xy"]
         if prog == "recall_before":
             start_response("200 OK", [("X-First", "1")])
@@ -148,7 +179,7 @@ class App:
 
 def scenario(ns, inp):
     adj = common.make_adj(ns)
-    app = App(inp)
+    app = App(inp, ns)
     req = b"GET / HTTP/%s\r\n\r\n" % inp["ver"].encode()
     r = common.drive(ns, adj, app, [req])
     return dict(wire=r["wire"], closing=r["closing"], exc=r["exc"])
@@ -209,6 +240,30 @@ def oracle(inp, obs):
         # output had begun: the connection is closed, nothing of the second call is emitted
         out.append(("after output has begun a re-call with exc_info closes the connection", obs["closing"] is True))
         out.append(("nothing supplied in the second call is emitted", wc.concrete()))
+        return out
+    if prog == "swallow" and bad:
+        # the refused strings must not reach the wire even if the application ignores the refusal: the response is built from
+        # the defaults (200 OK, server fields only) or is the server's 500
+        p = wire.find(b"\r\n\r\n") if len(wire) else -1
+        if p < 0:
+            out.append(("a response head is sent", False))
+            return out
+        lines = wire[:p].split(b"\r\n")
+        out.append(("strings refused by start_response never reach the wire: the only CR / LF bytes of the head are the line terminators",
+                    s_and(*[s_not(_has_crlf(ln)) for ln in lines])))
+        v = inp["ver"].encode()
+        out.append(("... the status line is the default or the server's 500",
+                    s_or(sym_equal(lines[0], b"HTTP/" + v + b" 200 OK"), sym_equal(lines[0], b"HTTP/" + v + b" 500 Internal Server Error"))))
+        for ln in lines[1:]:
+            c = ln.find(b":")
+            nm = ln[:c] if c >= 0 else ln
+            out.append(("... every other head line is a server field (got %r)" % (nm,), any(bool(nm == f) for f in SERVER_FIELDS + (b"Content-Type",))))
+        return out
+    if inp.get("fam") == "CL" and not bad:
+        # a Content-Length that is not a decimal number is outside the quantifier (500 or emitted as is); only line integrity is demanded
+        p = wire.find(b"\r\n\r\n") if len(wire) else -1
+        if p >= 0:
+            out.append(("the only CR / LF bytes of the head are the line terminators", s_and(*[s_not(_has_crlf(ln)) for ln in wire[:p].split(b"\r\n")])))
         return out
     if bad:
         out.append(("offending strings are refused: the response is the server-built 500 and contains nothing application-supplied",
